@@ -278,7 +278,27 @@ func pureFn(name string) *intrinsicDef {
 	}}
 }
 
+// freshChan: external function returning a channel nobody else holds (time.After)
+func freshChan(desc string) *intrinsicDef {
+	return &intrinsicDef{name: desc, heaps: noHeaps, allocs: true, apply: func(g *VCGen, c *ssa.CallCommon, pos token.Pos, v *ssa.Call) []SpecVal {
+		for _, a := range c.Args {
+			g.val(a)
+		}
+		g.chanHeaps()
+		r := g.newRef()
+		g.setHeap(g.cur, chanCapHeap, fmt.Sprintf("(store %s %s 1)", g.heapTerm(g.cur, chanCapHeap), r))
+		// the runtime is the sender: the number of sends on it is not known to this thread
+		ns := g.freshConst("timer!sends", "Int")
+		g.assumeHere(fmt.Sprintf("(>= %s 0)", ns))
+		g.setHeap(g.cur, chanSendsHeap, fmt.Sprintf("(store %s %s %s)", g.heapTerm(g.cur, chanSendsHeap), r, ns))
+		g.setHeap(g.cur, chanClosedHeap, fmt.Sprintf("(store %s %s false)", g.heapTerm(g.cur, chanClosedHeap), r))
+		g.setHeap(g.cur, chanRecvsHeap, fmt.Sprintf("(store %s %s 0)", g.heapTerm(g.cur, chanRecvsHeap), r))
+		return []SpecVal{{r, "Int", c.Signature().Results().At(0).Type()}}
+	}}
+}
+
 var simpleIntrinsics = map[string]*intrinsicDef{
+	"time.After": freshChan("time.After returns a fresh channel (the runtime sends on it once, later)"),
 	"go.uber.org/multierr.Append": {name: "multierr.Append(a, b) is nil exactly when both a and b are nil; no effect on tracked state", heaps: noHeaps, allocs: true,
 		apply: func(g *VCGen, c *ssa.CallCommon, pos token.Pos, v *ssa.Call) []SpecVal {
 			a, b := g.val(c.Args[0]), g.val(c.Args[1])
